@@ -387,7 +387,8 @@ fn aof_replay(r: &mut Runner, op: &[Tok]) -> (Vec<Tok>, Vec<Tok>) {
     let replies: Vec<V> = cmds.iter().map(|q| ask(&mut cl2, q, 3000)).collect();
     newop.push(i(replies.len() as i64)); for x in &replies { x.enc(&mut newop); }
     let live = match r.conns.get_mut(&c) { Some(cl) => dump(cl, &reqs), None => { srv2.stop(false); return (newop, vec![b("CLOSED")]); } };
-    let repl = dump(&mut cl2, &reqs);
+    // the dump of the second server from a connection of its own (database 0, like the live dump)
+    let repl = match Client::connect(srv2.port) { Some(mut cl3) => dump(&mut cl3, &reqs), None => vec![] };
     drop(cl2); srv2.stop(false);
     let agree = live == repl;
     let mut out = vec![i(agree as i64), i(replies.len() as i64)];
@@ -568,12 +569,24 @@ pub fn judge(c: &Case, outs: &[Vec<Tok>]) -> Vec<String> {
                 for f in &logged { if !matches!(f, V::Array(l) if !l.is_empty()) { fails.push(format!("FAIL case={} op={} a logged frame is not a command array", c.id, k)); } }
                 let ex = done();
                 let mut li = 0;
+                // a logged SELECT that no client command accounts for sets the database of what follows
+                let mut cur_db: i64 = 0;
+                let sel = |f: &V| -> Option<i64> { match f { V::Array(l) if l.len() == 2 && req_name(f) == b"SELECT" =>
+                    match &l[1] { V::Bulk(a) => String::from_utf8_lossy(a).parse::<i64>().ok(), _ => None }, _ => None } };
                 for d in &ex {
-                    if li < logged.len() && logged[li] == d.req { li += 1; continue; }
+                    while li < logged.len() && logged[li] != d.req { match sel(&logged[li]) { Some(n) => { cur_db = n; li += 1; } None => break } }
+                    if li < logged.len() && logged[li] == d.req {
+                        li += 1;
+                        if d.db != cur_db && STATE_CHANGING.contains(&&d.name[..]) {
+                            fails.push(format!("FAIL case={} op={} {}{} ran in database {} but the file places it in database {}", c.id, d.op, tag(Some("no-select-in-log")), String::from_utf8_lossy(&d.name), d.db, cur_db));
+                        }
+                        continue;
+                    }
                     if STATE_CHANGING.contains(&&d.name[..]) && took_effect(&d.name, &d.reply) {
                         fails.push(format!("FAIL case={} op={} {}{} took effect but is not in the file", c.id, d.op, tag(class_of_unlogged(&d.name)), String::from_utf8_lossy(&d.name)));
                     }
                 }
+                while li < logged.len() && sel(&logged[li]).is_some() { li += 1; }
                 if li < logged.len() { fails.push(format!("FAIL case={} op={} logged command #{} was not executed at that point of the history", c.id, k, li)); }
             }
             b"AOFREPLAY" => {
